@@ -236,6 +236,7 @@ def controller_seeding(repo: Repo):
         if not calls or any(isinstance(m, ast.For) and m is not lp and any(c2 is calls[0] for c2 in ast.walk(m)) for m in ast.walk(lp)):
             continue
         sorted_by_dep = False
+        sort_key_unread = False
         src = it
         if isinstance(it, ast.Call) and norm(it.func) == "sorted" and it.args:
             src = it.args[0]
@@ -248,6 +249,19 @@ def controller_seeding(repo: Repo):
                 if f is not None:
                     rets = [x.value for x in ast.walk(f) if isinstance(x, ast.Return) and x.value is not None]
                     body = rets[0] if len(rets) == 1 else None
+                else:
+                    # a module-level function of the class's module
+                    f = next((x for x in mod.file.tree.body if isinstance(x, ast.FunctionDef) and x.name == key.id), None)
+                    if f is not None:
+                        body = inline.as_expression(inline.normalize(repo, None, f, sf=mod.file))
+            elif isinstance(key, ast.Attribute) and norm(key.value) in ("self", "cls", mod.name, "type(self)"):
+                # a (static) method of the class used as the sort key
+                r_ = repo.lookup(mod, key.attr)
+                if r_ is not None and r_[1] == "method":
+                    e_ = inline.as_expression(inline.normalize(repo, r_[0], r_[2]))
+                    body = e_
+            if key is not None and body is None:
+                sort_key_unread = True
             if body is not None and any(_dep_polarity(x) == +1 for x in ast.walk(body) if isinstance(x, ast.Call)) \
                     and not any(isinstance(x, ast.UnaryOp) and isinstance(x.op, ast.Not) for x in ast.walk(body)) \
                     and not any(k.arg == "reverse" for k in it.keywords):
@@ -282,7 +296,7 @@ def controller_seeding(repo: Repo):
                 unknown = True
             else:
                 pols.append(p)
-        if unknown or len(set(pols)) > 1:
+        if unknown or len(set(pols)) > 1 or (sort_key_unread and not pols):
             flt = "?"
         elif sorted_by_dep and not pols:
             flt = "all-sorted"
